@@ -210,6 +210,7 @@ fixupL(const int_t n, const int_t *perm_r, GlobalLU_t *Glu)
 {
     register int_t nsuper, fsupc, nextl, i, j, jstrt;
     register int_t *xsup, *xsup_end, *lsub, *xlsub, *xlsub_end;
+    int_t *lsub_old; /* snapshot of the subscripts taken before compaction */
 
     if ( n <= 1 ) return;
 
@@ -220,6 +221,17 @@ fixupL(const int_t n, const int_t *perm_r, GlobalLU_t *Glu)
     xlsub_end = Glu->xlsub_end;
     nsuper    = Glu->supno[n];
     nextl     = 0;
+
+    /*
+     * Supernode numbers (NewNsuper) and subscript storage (Glu_alloc) are
+     * handed out under two different locks, so with several threads the
+     * storage order in lsub[] need not follow the supernode numbering.
+     * Compacting in place in supernode order would then overwrite the
+     * not-yet-read subscripts of a later supernode that happens to be
+     * stored at lower addresses. Compact from a snapshot instead.
+     */
+    lsub_old = intMalloc(Glu->nextl);
+    for (j = 0; j < Glu->nextl; j++) lsub_old[j] = lsub[j];
     
     /* 
      * For each supernode ...
@@ -229,12 +241,14 @@ fixupL(const int_t n, const int_t *perm_r, GlobalLU_t *Glu)
 	jstrt = xlsub[fsupc];
 	xlsub[fsupc] = nextl;
 	for (j = jstrt; j < xlsub_end[fsupc]; j++) {
-	    lsub[nextl] = perm_r[lsub[j]]; /* Now indexed into P*A */
+	    lsub[nextl] = perm_r[lsub_old[j]]; /* Now indexed into P*A */
 	    nextl++;
   	}
 	xlsub_end[fsupc] = nextl;
     }
     xlsub[n] = nextl;
+
+    SUPERLU_FREE (lsub_old);
 
 #if ( PRNTlevel==1 )
     printf(".. # edges in supernodal graph of L = " IFMT "\n", nextl);
